@@ -57,7 +57,7 @@ def decode_case(raw):
 def strategy(tier):
     return st.tuples(gen.CFG, st.lists(gen.STEP, min_size=3, max_size=12),
                      st.lists(st.tuples(st.integers(0, 6), gen.STEP), min_size=0, max_size=15),
-                     st.integers(0, 7), st.integers(0, 1 << 20), st.integers(0, 2), st.integers(0, 11), st.integers(0, 15)).map(decode_case)
+                     st.integers(0, 7), st.integers(0, 1 << 20), st.integers(0, 2), st.sampled_from(range(len(COMMANDS))), st.integers(0, 15)).map(decode_case)
 
 
 def choose_damage(w, c, seed, density, levels, small_hash, parity_allowed):
